@@ -1064,7 +1064,11 @@ class unyt_array(np.ndarray):
         else:
             to_units = self.units.get_base_equivalent(unit_system)
             conv, offset = self.units.get_conversion_factor(to_units, self.dtype)
-        ret = self.v * conv
+        # same result dtype as in_units/convert_to_base: a float (or complex)
+        # of the input's item size, at least 16 bits
+        dsize = max(2, self.dtype.itemsize)
+        new_dtypekind = "c" if self.dtype.kind == "c" else "f"
+        ret = np.asarray(self.v * conv, dtype=np.dtype(new_dtypekind + str(dsize)))
         if offset:
             ret = ret - offset
         return type(self)(ret, to_units)
